@@ -483,6 +483,33 @@ class RangeListTaskParameterDefinition(OpenJDModel_v2023_09):
     range: TaskRangeList
 
 
+class IntRangeListTaskParameterDefinition(RangeListTaskParameterDefinition):
+    # Target model for an INT task parameter's range list. The format strings have been
+    # resolved at this point, so every element must be an integer.
+    @validator("range")
+    def _validate_range_elements(cls, value: list[str]) -> list[str]:
+        for v in value:
+            try:
+                int(v)
+            except ValueError:
+                raise ValueError(f"Value '{v}' must be an integer.")
+        return value
+
+
+class FloatRangeListTaskParameterDefinition(RangeListTaskParameterDefinition):
+    # Target model for a FLOAT task parameter's range list. The format strings have been
+    # resolved at this point, so every element must be a finite number.
+    @validator("range")
+    def _validate_range_elements(cls, value: list[str]) -> list[str]:
+        for v in value:
+            try:
+                if not Decimal(v).is_finite():
+                    raise ValueError()
+            except (ValueError, InvalidOperation):
+                raise ValueError(f"Value '{v}' must be a finite number.")
+        return value
+
+
 class RangeExpressionTaskParameterDefinition(OpenJDModel_v2023_09):
     # element type of items in the range
     type: TaskParameterType
@@ -527,7 +554,7 @@ class IntTaskParameterDefinition(OpenJDModel_v2023_09):
     def _get_range_task_param_type(model: Any) -> Type[OpenJDModel]:
         if isinstance(model.range, RangeString):
             return RangeExpressionTaskParameterDefinition
-        return RangeListTaskParameterDefinition
+        return IntRangeListTaskParameterDefinition
 
     _job_creation_metadata = JobCreationMetadata(
         create_as=JobCreateAsMetadata(callable=_get_range_task_param_type),
@@ -611,7 +638,7 @@ class FloatTaskParameterDefinition(OpenJDModel_v2023_09):
     )
     _template_variable_sources = {"__export__": {"__self__"}}
     _job_creation_metadata = JobCreationMetadata(
-        create_as=JobCreateAsMetadata(model=RangeListTaskParameterDefinition),
+        create_as=JobCreateAsMetadata(model=FloatRangeListTaskParameterDefinition),
         resolve_fields={"range"},
         exclude_fields={"name"},
     )
